@@ -545,3 +545,27 @@ def truncation_programs():
             prefix = text[:b]
             for tail in ("", "\n}", "\n=", "\n$", "\n)", "\nstruct", "\n}\n}\n", "\n/// {@link\n", "\n, ,"):
                 yield ("truncate", pi, b, tail), prefix + tail
+
+
+def alias_graph_program(rng):
+    """Four aliases whose targets are each other - directly or inside anonymous types -, by-name uses before, between and after
+    them, in one or two files: loops must end in diagnostics whatever the order in which references are resolved."""
+    n = 4
+    forms = ["A{j}", "A{j}", "Sequence<A{j}>", "Dictionary<bool, A{j}>", "Result<A{j}, bool>", "Sequence<Dictionary<string, A{j}?>>",
+             "Result<bool, Sequence<A{j}>>", "Result<A{j}, A{k}>"]
+    defs = []
+    for i in range(n):
+        t = rng.randrange(n + 1)
+        if t < n:
+            defs.append("typealias A%d = %s" % (i, rng.choice(forms).format(j=t, k=rng.randrange(n))))
+        else:
+            defs.append("typealias A%d = %s" % (i, rng.choice(["bool", "Sequence<int32>", "string"])))
+    uses = ["typealias Outer%d = A%d" % (i, rng.randrange(n)) for i in range(rng.randint(0, 2))]
+    uses += ["struct U%d { f: A%d, g: Sequence<A%d> }" % (i, rng.randrange(n), rng.randrange(n)) for i in range(rng.randint(0, 2))]
+    uses += ["interface I%d { op(a: A%d) -> A%d }" % (i, rng.randrange(n), rng.randrange(n)) for i in range(rng.randint(0, 1))]
+    lines = defs + uses
+    rng.shuffle(lines)
+    if rng.random() < 0.3:
+        cut = rng.randrange(1, len(lines)) if len(lines) > 1 else 1
+        return ["module M\n" + "\n".join(lines[:cut]) + "\n", "module M\n" + "\n".join(lines[cut:]) + "\n"]
+    return ["module M\n" + "\n".join(lines) + "\n"]
